@@ -216,6 +216,9 @@ def rcase(rng, dtype=None, depth=None):
     case["placement"] = "none" if at == 3 else order[at]
     if case.get("daqmx") is None and rng.random() < 0.3:
         case["obj_order"] = rng.choice(["chan_first", "late_group"])
+    if case.get("daqmx") is None and rng.random() < 0.3:
+        # group names that need escaping in the object path (group-level properties are looked up by group PATH)
+        case["group_name"] = rng.choice(["q'q", "a/b", "é", "'", ""])
     return case
 
 
@@ -285,10 +288,10 @@ def build_file(case):
     if case.get("obj_order"):
         # objects in an order the writer never produces (group / root after the channel, or first appearing in a
         # later metadata-only segment): scaling properties must still be found at every level
-        raw = L.raw_order_file(root, group, chan, segs, case["obj_order"])
+        raw = L.raw_order_file(root, group, chan, segs, case["obj_order"], group=case.get("group_name", "g"))
         if raw is not None:
             return raw, data, {}
-    return L.writer_file(root, group, chan, segs), data, {}
+    return L.writer_file(root, group, chan, segs, group=case.get("group_name", "g")), data, {}
 
 
 def passthrough(graph):
@@ -342,7 +345,8 @@ def run_case(run, case, stats):
 
     # -- the implementation, eager and lazy
     eager = TdmsFile.read(io.BytesIO(content))
-    ch = eager["g"]["c"]
+    gname = case.get("group_name", "g") if case.get("daqmx") is None else "g"
+    ch = eager[gname]["c"]
     raw_before = None
     if data is not None and len(data) > 0:
         raw_before = ch.raw_data
@@ -359,7 +363,7 @@ def run_case(run, case, stats):
     e_data = attempt(lambda: ch.data)
     e_win = attempt(lambda: ch.read_data(o, l))
     with TdmsFile.open(io.BytesIO(content)) as lazy:
-        lch = lazy["g"]["c"]
+        lch = lazy[gname]["c"]
         l_full = attempt(lambda: lch[:])
         l_win = attempt(lambda: lch.read_data(o, l))
         l_slice = attempt(lambda: lch[o:o + l])
@@ -459,7 +463,7 @@ def run_case(run, case, stats):
         L.cprops(chan), L.cprops(group), L.cprops(root), L.crawdata(data, scalers), obs(e_full), o, l, obs(e_win))
     plain = case["daqmx"] is None
     fterm = "(%s, %s, %s, %d%%nat, %d%%nat, %s, %s, %s)" % (
-        H.chex(content), H.chex(b"/'g'/'c'"), obs(e_full), o, l, obs(e_win),
+        H.chex(content), H.chex(L.gpath(gname, "c").encode("utf-8")), obs(e_full), o, l, obs(e_win),
         "true" if plain else "false",
         obs(l_win) if isinstance(l_win, Raised) or l_win.dtype.kind != "c" else "None")
     return term, rep, key, e_full, fterm
